@@ -2,6 +2,7 @@ import Driver.Proto
 import IpfixModel.Model.Collector
 import IpfixModel.Model.Registry
 import IpfixModel.Model.Exporter
+import IpfixModel.Spec.Exp
 import Std.Data.HashMap
 namespace Driver
 open Ipfix
@@ -20,5 +21,6 @@ structure DState where
   specMode : Mode := .strict
   bld : Option SetB := none
   exp : ExpState := {}
+  specExp : ExpSpec.Tracker := {}
 
 end Driver
